@@ -100,6 +100,9 @@ pub struct Knobs {
     /// may reach the store and every lane restarts from its default; the stores stay persistent.
     #[serde(default)]
     pub all_lanes_transient: bool,
+    /// The agent is built by a factory that fills the persistent map lanes `map` and `bmap` (instead of `Default`).
+    #[serde(default)]
+    pub initial_contents: bool,
     /// Start value of std's hash keys on the run's thread (iteration order of the product's HashMaps).
     #[serde(default)]
     pub hash_seed: u64,
@@ -300,6 +303,7 @@ pub fn generate(seed: u64, focus: &str, _tier: Tier) -> AgentScenario {
         hash_seed: root.sub("hash").next_u64() | 1,
         remote_host: root.sub("remote-host").chance(1, 2),
         all_lanes_transient: (focus == "C05" || focus == "MIX") && root.sub("lanes-transient").chance(1, 6),
+        initial_contents: matches!(focus, "C05" | "C02" | "C03" | "MIX") && root.sub("initial-contents").chance(1, 5),
         fail_on_multiple_of: if focus == "C01" && root.sub("handler-fail").chance(1, 3) { 7 } else { 0 },
         persistent: focus != "C04F" && (focus == "C05" || focus == "C05F" || g.rng.chance(1, 3)),
         target_cap: *g.rng.pick(&[8u32, 16, 32, 64, 4096]),
